@@ -3,7 +3,7 @@
 # Applies a seeded change to a scratch copy of /repo (never to /repo itself) and runs the property's quick check
 # against that copy (VERIF_REPO). Prints the VIOLATION lines and exit status.
 set -u
-PID=$1; PATCH=$2; shift 2
+PID=$1; PATCH=$(readlink -f "$2"); shift 2
 S=/tmp/seedtry/$PID.$$
 mkdir -p /tmp/seedtry && rm -rf $S && rsync -a --exclude target --exclude .git /repo/ $S/ || exit 3
 ( cd $S && patch -p1 --quiet < $PATCH ) || { echo "patch does not apply"; rm -rf $S; exit 3; }
